@@ -13,7 +13,55 @@ STREAMS = {
 }
 
 PROPS = {
-    "C27": {"props": ["LachesisVerif.Props.C27"], "streams": ["cprod"], "claim": "", "note": ""},
-    "C29": {"props": ["LachesisVerif.Props.C29"], "streams": ["wlru"], "claim": "", "note": ""},
-    "C30": {"props": ["LachesisVerif.Props.C30"], "streams": ["sem", "semtimed"], "claim": "", "note": ""},
+    "C27": {
+        "props": ["LachesisVerif.Props.C27"],
+        "streams": ["cprod"],
+        "claim": "Proof (both constructors, all op sequences over any number of names): refcount_balance (counter = successful opens - successful "
+                 "closes; store cached iff positive), open_returns_same_store, close_at_last_close (underlying Close iff exactly one open is "
+                 "outstanding, error iff none, otherwise count down - stated on the observable history), drop_at_most_once_per_open, and "
+                 "closed_exactly_once (every store ever opened underneath is closed underneath exactly once when no longer cached, never while "
+                 "cached) for sequences that do not close a stale handle of an earlier generation while a newer one is open (DESIGN 2.6). "
+                 "Pre-fix Wrap (nil refCounter map, D9) kept as a decide witness. Correspondence: all sequences <= 7 over 2 names (thorough) + "
+                 "random, Wrap and WrapAll over a logging fake producer, incl. stale handles and failing underlying opens.",
+        "note": "Trusted: Lean kernel; extractor (counter tests, reuse test, toClose/toDrop tests); harness stream cprod. Map allocation in the "
+                "constructors is not extracted (composite literal): tied by the stream only. Concurrency of openDB (two racing first opens) is out of scope.",
+        "trusted": ["go/cmd/extract (counter <= 0, counter == 1, ok, toClose, toDrop in openDB)", "harness stream cprod (fake producer logs Close/Drop)"],
+        "assumptions": ["closed_exactly_once: no close through a handle of an earlier generation while a newer generation of the name is open",
+                        "sequential use of one producer"],
+    },
+    "C29": {
+        "props": ["LachesisVerif.Props.C29"],
+        "streams": ["wlru"],
+        "claim": "Proof over all op sequences of every public op (Add, Get, Peek, Contains, ContainsOrAdd, PeekOrAdd, Remove, RemoveOldest, GetOldest, "
+                 "Keys, Len, Total, Resize, Purge with any map order): bounds_after_every_op (size, weight, counter = sum, distinct keys), "
+                 "evicts_lru_first (callbacks ++ remaining entries strictly ascending in last-touch time of the observable history), "
+                 "evict_only_when_over, evict_callback_once (callbacks + remaining = entries in play, as multisets, keys distinct), "
+                 "heavy_entry_evicted_at_once, keys_oldest_to_newest. normalize condition and weight subtractions regenerated from the source. "
+                 "Correspondence: exhaustive sequences (len 4 full alphabet, len 5/6 reduced alphabets, 3 keys up to renaming, 3 weights) + random "
+                 "long ones against simplewlru and wlru incl. the callback log.",
+        "note": "Trusted: Lean kernel, extractor, harness/diff. maxSize >= 0 (the Go loop does not terminate for a negative size: observation, not "
+                "claimed); uint weight sums do not wrap; Purge callbacks compared sorted by key (map order is an oracle in the theorems). "
+                "The list is kept oldest-first in the model (= evictList.Back() first).",
+        "trusted": ["go/cmd/extract (normalize loop condition, weight subtractions)", "harness stream wlru"],
+        "assumptions": ["maxSize >= 0", "sums of weights stay below 2^64"],
+    },
+    "C30": {
+        "props": ["LachesisVerif.Props.C30"],
+        "streams": ["sem", "semtimed"],
+        "claim": "Proof over all sequences of acquire/try/release/tick/terminate (any amounts incl. wrapping ones, any timeouts, any wake order): "
+                 "held_never_exceeds_capacity, fitting_granted_at_once + no_fitting_request_left_waiting + release_grants_what_fits/"
+                 "release_grants_first (granted at once or at the release that makes room, never refused by a release), above_capacity_refused, "
+                 "waiter_returns_false_at_deadline (exactly the expired ones, only then), terminate_releases_waiters + refused_after_terminate + "
+                 "terminated_forever, over_release_resets. tryAcquire incl. its overflow guard, Release and the Acquire loop conditions are "
+                 "regenerated from the source; pre-fix wrap-around and the missing deadline wake-up (D10) kept as decide witnesses. "
+                 "Partial: 'shortly after the timeout' is real time - judged on the real code by stream semtimed "
+                 "(timeout <= elapsed <= 2*timeout+200 ms, noisy runs repeated up to 3 times in the harness). "
+                 "Correspondence: sem = single-threaded sequences with amounts around 2^32 / 2^64 (diff); semtimed = blocked goroutines (judge).",
+        "note": "Trusted: Lean kernel, extractor, harness; the Go runtime (sync.Cond, timers). time.Now().After(deadline) is modelled as "
+                "deadline <= now. The harness orders the semaphore's steps by waiting until every Acquire goroutine has returned or is parked in "
+                "sync.Cond.Wait (goroutine dump), so only deadlines are real time.",
+        "trusted": ["go/cmd/extract (tryAcquire sums and both conditions, Release condition and subtractions, Acquire loop and give-up conditions)",
+                    "harness streams sem, semtimed", "Go runtime: sync.Cond, time.AfterFunc"],
+        "assumptions": ["capacity within uint32/uint64 (it is a dag.Metric)", "real-time clause checked with slack on the real code only"],
+    },
 }
